@@ -439,7 +439,10 @@ def check_cli(case):
     out = r["stdout"] + "\n" + r["stderr"]
     fname = "merchants.rules" if which == "rules" else "views.rules"
     viol = []
-    names_it = (fname in out and re.search(r"(?i)error|invalid|fail|cannot|could not", out)) or re.search(r"(?i)\bline \d+", out)
+    # "reported": the user can tell something is wrong with that file - the file is named next to a problem word, a line number is
+    # given, or the command refuses (non-zero exit) with a message on stderr; the wording itself is not constrained
+    names_it = ((fname in out and re.search(r"(?i)error|invalid|fail|cannot|can't|could not|unable|problem|not valid|malformed|unexpected|syntax|warning|skipp|ignor|broken|corrupt", out))
+                or re.search(r"(?i)\b(line|row)\s*#?\s*\d+", out) or (r["exit"] not in (0, 70) and r["stderr"].strip()))
     if "Traceback (most recent call last)" in out or r["exit"] == 70:
         viol.append({"kind": "command-crashes-on-corrupt-file", "detail": {"command": cmd, "exit": r["exit"], "output_tail": out[-600:]}})
     elif not names_it:
